@@ -19,6 +19,8 @@ type synthCase struct {
 	Key  string `json:"key"`
 	Set  pset   `json:"set"`
 	Root string `json:"root"`
+
+	overflow bool // the summed edge lengths pass 255: the legacy verifier's uint8 position wraps
 }
 
 func genSynth(r *hx.RNG) synthCase {
@@ -99,6 +101,7 @@ func genSynth(r *hx.RNG) synthCase {
 		cur = child{r.Chance(12), fhex(&h)}
 	}
 	sc.Root = cur.F
+	sc.overflow = pos > 255
 	return sc
 }
 
@@ -113,6 +116,9 @@ func evalSynth(c *hx.Ctx, or *hx.Oracle, sc synthCase) {
 	g1 := verify1Go(root, key, toLegacy(sc.Set), hf)
 	m1 := verifyModel(or, "v1", root, kb, sc.Set, hf)
 	c.Count("synth|"+sc.Root+"|"+sc.Key, true)
+	if sc.overflow {
+		c.Hist["synthetic-chain:summed-lengths-pass-255"]++
+	}
 	c.Hist["synthetic-chain:trie2:"+strings.Fields(g2)[0]]++
 	c.Hist["synthetic-chain:legacy:"+strings.Fields(g1)[0]]++
 	if g2 != m2 {
@@ -217,11 +223,17 @@ func evalRange(c *hx.Ctx, r *hx.RNG, tc trieCase) {
 	want := fmt.Sprintf("ok more=%v", wantMore)
 	c.Count("range|"+strings.Join(tc.Ops, ",")+"|"+keys[0]+"|"+keys[len(keys)-1], true)
 	c.Hist[fmt.Sprintf("range:honest:len=%d", min(len(keys), 6))]++
+	honestClass := func(impl, g string) string {
+		if strings.HasPrefix(g, "ok") {
+			return impl + ":honest-range-proof-wrong-more-flag" // verified, but "more elements to the right" is wrong
+		}
+		return impl + ":honest-range-proof-not-verified"
+	}
 	if g := rangeVerify2(b.root, first, keys, vals, p2); g != want {
-		c.Violation("trie2:honest-range-proof-not-verified", fmt.Sprintf("%s want %s", g, want), rangeCase{tc, keys[0], keys, vals, ""}, false)
+		c.Violation(honestClass("trie2", g), fmt.Sprintf("root %s range [%s..%s] of %d entries: %s want %s", fhex(&b.root), keys[0], keys[len(keys)-1], len(all), g, want), rangeCase{tc, keys[0], keys, vals, ""}, false)
 	}
 	if g := rangeVerify1(b.root, first, keys, vals, p1); g != want {
-		c.Violation("legacy:honest-range-proof-not-verified", fmt.Sprintf("%s want %s", g, want), rangeCase{tc, keys[0], keys, vals, ""}, false)
+		c.Violation(honestClass("legacy", g), fmt.Sprintf("root %s range [%s..%s] of %d entries: %s want %s", fhex(&b.root), keys[0], keys[len(keys)-1], len(all), g, want), rangeCase{tc, keys[0], keys, vals, ""}, false)
 	}
 	// altered ranges: a changed value, an omitted inner element, an inserted element
 	type alt struct {
@@ -266,6 +278,56 @@ func evalRange(c *hx.Ctx, r *hx.RNG, tc trieCase) {
 	}
 }
 
+// replayRange re-runs one stored (possibly altered) range against the proof of its end points
+func replayRange(c *hx.Ctx, rc rangeCase) {
+	b, err := buildTries(rc.Trie)
+	hx.Must(err)
+	first, last := hexF(rc.First), hexF(rc.Keys[len(rc.Keys)-1])
+	p2 := trie2.NewProofNodeSet()
+	hx.Must(b.t2.GetRangeProof(&first, &last, p2))
+	p1 := trie.NewProofNodeSet()
+	hx.Must(b.t1.GetRangeProof(&first, &last, p1))
+	g2 := rangeVerify2(b.root, first, rc.Keys, rc.Values, p2)
+	g1 := rangeVerify1(b.root, first, rc.Keys, rc.Values, p1)
+	fmt.Printf("replay: range %v (altered: %q): trie2.VerifyRangeProof %s, trie.VerifyRangeProof %s\n", rc.Keys, rc.Tamper, g2, g1)
+	if rc.Tamper != "" {
+		if strings.HasPrefix(g2, "ok") {
+			c.Violation("trie2:range-forged:"+rc.Tamper, "replayed: "+g2, rc, false)
+		}
+		if strings.HasPrefix(g1, "ok") {
+			c.Violation("legacy:range-forged:"+rc.Tamper, "replayed: "+g1, rc, false)
+		}
+		return
+	}
+	// honest range: expected flag from the trie content
+	content := map[string]bool{}
+	for _, o := range rc.Trie.Ops {
+		f := strings.Split(o, ":")
+		if f[1] == "0" {
+			delete(content, f[0])
+		} else {
+			content[f[0]] = true
+		}
+	}
+	more := false
+	lb := hexFbig(rc.Keys[len(rc.Keys)-1])
+	for k := range content {
+		if hexFbig(k).Cmp(lb) > 0 {
+			more = true
+		}
+	}
+	want := fmt.Sprintf("ok more=%v", more)
+	for impl, g := range map[string]string{"trie2": g2, "legacy": g1} {
+		if g != want {
+			cl := impl + ":honest-range-proof-not-verified"
+			if strings.HasPrefix(g, "ok") {
+				cl = impl + ":honest-range-proof-wrong-more-flag"
+			}
+			c.Violation(cl, "replayed: "+g+" want "+want, rc, false)
+		}
+	}
+}
+
 var _ = crypto.Pedersen
 
 func report(c *hx.Ctx, vs []verdict, tc trieCase) {
@@ -291,9 +353,9 @@ func main() {
 		c.Finish("replay")
 	}
 
-	nTries, nSynth, nRange := 60, 400, 40
+	nTries, nSynth, nRange := 150, 1200, 120
 	if c.Thorough() {
-		nTries, nSynth, nRange = 1500, 20000, 1500
+		nTries, nSynth, nRange = 2500, 30000, 3000
 	}
 	// small heights: Prove correspondence + model verifiers; height 251: everything
 	for i := 0; i < nTries; i++ {
